@@ -218,6 +218,9 @@ impl Property for C01 {
     fn id(&self) -> &'static str {
         "C01"
     }
+    fn fuzzable(&self) -> bool {
+        true
+    }
     fn rule(&self) -> String {
         "cases: programs decoded from a random choice tape by the typed, scoped generator (profile full; ~15% with one injected run-time fault) plus the in-repo .fml corpus; each is judged against the reference semantics in-process (compile+interpret, serialize+load+interpret, evaluate_with loop) and a sample through the real `fml run`. non-trivial: the reference run executes >=1 print and >=2 different construct classes among {loop iteration, user call, method call, inherited dispatch, built-in via parent, array read/write, field write, shadowing, compound array}; distinct by source text".into()
     }
